@@ -24,7 +24,7 @@
    chain [a], peers [conn], no cached lists. *)
 From stdpp Require Import gmap list.
 From Coq Require Import ZArith Lia.
-From Verif Require Import S1.Model C07.Spec C03.Model C03.Spec C03.Proofs C03.ProofsR C03.ProofsC
+From Verif Require Import S1.Model C07.Spec C03.Model C03.Spec C03.Proofs C03.ProofsU C03.ProofsR C03.ProofsC
      C03.Loop C03.LoopSpec C03.LoopTruth C03.LoopProofs C03.LoopProofsR C03.LoopProofsT C03.LoopProofsG
      C03.LoopWitness C03.LoopExample.
 Open Scope Z_scope.
@@ -185,6 +185,38 @@ Print Assumptions C03_loop_success_commits.
    ReplayLoop.run_lcases_with true against the unrepaired handler, showed the
    two livelocks (same stop hash asked for ever / same peer banned for ever);
    C03_loop_failed_attempts_bounded is what the repaired code satisfies. *)
+
+(* ===================== requests fit a message ===================== *)
+
+(* Every getcfheaders request the model issues can be answered by a
+   conforming peer: it spans at most MAXCFH = wire.MaxCFHeadersPerMsg = 2000
+   headers (a cfheaders message cannot hold more; btcd does not answer a
+   longer request).  (1) the broadcast of getCFHeadersForAllPeers, for every
+   view of the stores; (2) on the two lists: it asks for the n <= 2000 headers
+   h .. h+n-1 with n = min(2000, tip - h + 1), its stop hash is the block at
+   height h+n-1; (3) the requests
+   of the checkpointed fetch: request (ci, stop) asks for the heights
+   ci*1000+1 .. min(ci+2, ncp)*1000, at most 2000. *)
+Theorem C03_getcfheaders_requests_fit_a_message :
+  (forall v h stop n, cf_range v h = Some (stop, n) -> 0 <= n <= MAXCFH) /\
+  (forall a h stop n, abl a <> [] -> zlen (abl a) < 1000000 -> 0 <= h <= hlen a ->
+     cf_range (aview a) h = Some (stop, n) ->
+     1 <= n <= MAXCFH /\ zget (abl a) (h + n - 1) = Some stop /\
+     n = Z.min MAXCFH (hlen a - h + 1)) /\
+  (forall fuel a ncp cur qs ci stop, mk_queries fuel a ncp cur = Some qs -> In (ci, stop) qs ->
+     cur <= ci < ncp /\ zget (abl a) (Z.min (ci + CPQ) ncp * INTERVAL) = Some stop /\
+     1 <= Z.min (ci + CPQ) ncp * INTERVAL - (ci * INTERVAL + 1) + 1 <= MAXCFH).
+Proof.
+  split; [exact ProofsU.cf_range_bound|]. split.
+  - intros a h stop n Hne Hlen Hh Hc.
+    destruct (cf_range_aview a h Hne Hlen Hh) as (stop' & n' & Hc' & Hn & He & Hz & Hfull).
+    rewrite Hc in Hc'. injection Hc' as <- <-. split; [done|]. split; [done|].
+    unfold MAXCFH in *. lia.
+  - intros fuel a ncp cur qs ci stop Hq Hin.
+    destruct (mk_queries_stop a ncp fuel cur qs Hq ci stop Hin) as [Hc Hz].
+    split; [done|]. split; [done|]. unfold CPQ, INTERVAL, MAXCFH. lia.
+Qed.
+Print Assumptions C03_getcfheaders_requests_fit_a_message.
 
 (* The hypotheses about a run are met by a concrete one: 1002 block headers,
    one honest peer; the handler asks for the checkpoints, finds the list,
